@@ -199,7 +199,9 @@ func (t *Topic) procPresReq(fromUserID, what string, wantReply bool) string {
 		} else if cmd != "rem" {
 			// Got request from a new topic. This must be a new subscription. Record it.
 			// If it's unknown, recording it as offline.
-			t.addToPerSubs(fromUserID, onlineUpdate, cmd == "en")
+			// A contact which is not enabled is kept offline, as it is done for the listed contacts above:
+			// otherwise the "on" which follows enabling the contact is taken for a repeat and dropped.
+			t.addToPerSubs(fromUserID, onlineUpdate && cmd == "en", cmd == "en")
 
 			if cmd != "en" {
 				// If the connection is not enabled, ignore the update.
